@@ -428,7 +428,7 @@ func c04cases(thorough bool) []c04case {
 func C04(tier string) int {
 	res := NewResult("C04", tier, "exploration")
 	cases := c04cases(res.Thorough())
-	res.Rule = fmt.Sprintf("each handled inbox activity type with every sequence of 1..%d objects / targets / actors from per-type alphabets (IRI and embedded, owned and foreign, Collection / OrderedCollection / non-collection targets, absent / unordered / ordered likes and shares, missing documents), OnFollow in {nothing, accept, reject}, Follow object in {this actor, another local actor, remote, list, embedded}, x callback configuration {none, wrapped, wrapped failing, 'other' override}, plus single-hook configurations (exactly one other type X wrapped / overridden, for all 11 X): %d requests; a reference model written from the documentation is applied to the initial state and diffed against the real final state; deliveries and callback order are compared too", map[bool]int{false: 2, true: 3}[res.Thorough()], len(cases))
+	res.Rule = fmt.Sprintf("each handled inbox activity type with every sequence of 1..%d objects / targets / actors from per-type alphabets (IRI and embedded, owned and foreign, Collection / OrderedCollection / non-collection targets, absent / unordered / ordered likes and shares, missing documents), OnFollow in {nothing, accept, reject}, Follow object in {this actor, another local actor, remote, list, embedded}, x callback configuration {none, wrapped, wrapped failing, 'other' override}, plus single-hook configurations (exactly one other type X wrapped / overridden, for all 11 X): %d requests; a reference model written from the documentation is applied to the initial state and diffed against the real final state; deliveries and callback order are compared too; plus every ordered pair of single-valued activities (up to 4 per type and OnFollow mode; thorough: all) delivered one after the other to ONE application with the model applied step by step, and single faults inside the default effect", map[bool]int{false: 2, true: 3}[res.Thorough()], len(cases))
 	res.Assumptions = []string{"order among several followers added by one Follow is not asserted", "where a later object/target makes the effect fail, the effect on earlier ones (list order) stays, as the code does; the statement does not forbid it",
 		"top-level @context of stored values is not compared (C01)"}
 	var mu sync.Mutex
@@ -565,6 +565,88 @@ func C04(tier string) int {
 			res.Violate(v.key, v.what, v.rep)
 		}
 	})
+	// ---- histories: every ordered pair of single-valued inbox activities (plain default callbacks)
+	// delivered one after the other to ONE application; the reference model is applied step by step
+	// (the effect of an activity must not depend on what was received before it) ----
+	var hcases []c04case
+	perType := map[string]int{}
+	for _, c := range cases {
+		if c.cb != ap.CBNone || c.keep != "" {
+			continue
+		}
+		if _, many := c.body["object"].([]interface{}); many {
+			continue
+		}
+		if _, many := c.body["target"].([]interface{}); many {
+			continue
+		}
+		if _, many := c.body["actor"].([]interface{}); many {
+			continue
+		}
+		k := fmt.Sprintf("%s|%d", c.typ, c.onFollow)
+		if perType[k] >= 4 && !res.Thorough() {
+			continue
+		}
+		perType[k]++
+		hcases = append(hcases, c)
+	}
+	var hmu sync.Mutex
+	nHist := 0
+	parallel(len(hcases), func(i int) {
+		c1 := hcases[i]
+		n := 0
+		type hv struct {
+			key, what string
+			rep       M
+		}
+		var hvs []hv
+		for _, c2 := range hcases {
+			if c2.onFollow != c1.onFollow && (c1.typ == "Follow" || c2.typ == "Follow") {
+				continue
+			}
+			of := c1.onFollow
+			if c2.typ == "Follow" {
+				of = c2.onFollow
+			}
+			a := (&Scenario{Kind: ap.Both, Tweak: func(a *ap.App) { c04world(a); a.OnFollow = of }}).World()
+			ref := RefOf(a)
+			second := c2
+			b2 := deepCopy(c2.body).(map[string]interface{})
+			b2["id"] = RAct2
+			second.body = b2
+			names := []string{c1.typ + " " + shortJSON(c1.body), c2.typ + " " + shortJSON(b2)}
+			for step, c := range []c04case{c1, second} {
+				fail, _ := modelInbox(ref, a, c)
+				sc := &Scenario{Name: "c04/history", Kind: ap.Both, Entry: "PostInbox", URL: inbox(Alice), Body: c.body}
+				out := sc.On(a, nil)
+				if out.Panic != nil {
+					break
+				}
+				rep := M{"check": "C04", "part": "history", "requests": names}
+				if (out.Err != nil || len(out.W.Statuses) == 0 || out.W.Statuses[0] != 200) != fail {
+					hvs = append(hvs, hv{fmt.Sprintf("history|outcome|%s-after-%s", c.typ, c1.typ), fmt.Sprintf("%v: request %d: err=%v statuses=%v, the reference model says fail=%v", names, step+1, out.Err, out.W.Statuses, fail), rep})
+					break
+				}
+				unordered := map[string]bool(nil)
+				if c1.typ == "Follow" || c1.typ == "Accept" || c.typ == "Follow" || c.typ == "Accept" {
+					unordered = map[string]bool{"items": true}
+				}
+				if d := ref.Diff(a, unordered); len(d) > 0 {
+					hvs = append(hvs, hv{fmt.Sprintf("history|state|%s|%s-after-%s", diffClass(d[0]), c.typ, c1.typ), fmt.Sprintf("%v: after request %d: %s", names, step+1, d[0]), rep})
+					break
+				}
+			}
+			n++
+		}
+		hmu.Lock()
+		defer hmu.Unlock()
+		nHist += n
+		for _, v := range hvs {
+			res.Violate(v.key, v.what, v.rep)
+		}
+	})
+	res.Evaluations += nHist
+	res.Extra["two_request_histories"] = nHist
 	// ---- single faults inside the default effect: the wrapped callback and any automatic
 	// response must not happen once a step of the default effect failed ----
 	seenType := map[string]int{}
